@@ -35,6 +35,9 @@ pub struct SearchStats {
     /// executions thrown away because the environment did not reproduce their prefix (see `search`)
     #[serde(default)]
     pub discarded_replays: u64,
+    /// prefixes given up after 5 attempts (their subtrees are unexplored)
+    #[serde(default)]
+    pub unreproducible_prefixes: u64,
 }
 
 /// Explores every choice vector with at most `bound` non-default choices.
@@ -71,8 +74,18 @@ pub fn search(
                 None => prefix.iter().enumerate().find(|(i, c)| r.trace.get(*i).map(|p| p.chosen) != Some(**c)).map(|(i, _)| format!("execution did not reach choice point {i} of its prefix {prefix:?}")),
             };
             match problem {
-                None => break r,
-                Some(p) if attempt >= 4 => machinery_error(&p),
+                None => break Some(r),
+                Some(p) if attempt >= 4 => {
+                    // five attempts did not follow this prefix: it came from a parent execution the
+                    // environment does not reproduce. Its subtree is left unexplored and counted; more
+                    // than a handful of those means the simulation does not own its environment.
+                    stats.unreproducible_prefixes += 1;
+                    eprintln!("NOTE: prefix left unexplored after 5 attempts: {p}");
+                    if stats.unreproducible_prefixes > 3 + stats.executions / 500 {
+                        machinery_error(&format!("{} prefixes could not be reproduced; last: {p}", stats.unreproducible_prefixes));
+                    }
+                    break None;
+                }
                 Some(_) => {
                     attempt += 1;
                     stats.discarded_replays += 1;
@@ -80,6 +93,7 @@ pub fn search(
                 }
             }
         };
+        let Some(r) = r else { continue };
         stats.choice_points_seen += r.trace.len() as u64;
         stats.max_points_in_one_execution = stats.max_points_in_one_execution.max(r.trace.len() as u64);
         for p in &r.trace {
